@@ -45,12 +45,33 @@ class Guard:
   peak = 0.0
   inits = 0  # concrete (non-traced) calls of a parameter initialiser
   calls = None  # list of (path tuple, arg, ret) when recording
+  shadow = None  # {(col, path tuple, name): total last written by the program through put / variable init}
+  stale = None  # reads that did not return the value the program last wrote there
 
   @classmethod
   def reset(cls):
     cls.peak = 0.0
     cls.inits = 0
     cls.calls = None
+    cls.shadow = None
+    cls.stale = None
+
+  @classmethod
+  def wrote(cls, col, path, name, tot):
+    if cls.shadow is not None and not is_tracer(tot):
+      cls.shadow[(col, tuple(path), name)] = float(tot)
+
+  @classmethod
+  def forget(cls, col, path, name):
+    if cls.shadow is not None:
+      cls.shadow.pop((col, tuple(path), name), None)
+
+  @classmethod
+  def read(cls, col, path, name, tot):
+    if cls.shadow is not None and not is_tracer(tot):
+      k = (col, tuple(path), name)
+      if k in cls.shadow and cls.shadow[k] != float(tot):
+        cls.stale.append((list(k[1]) + [name], col, cls.shadow[k], float(tot)))
 
   @classmethod
   def see(cls, v):
@@ -115,6 +136,51 @@ def ev(e, x, env):
   raise ValueError(e)
 
 
+def scalar_of(x):
+  """the scalar a body computes with: the argument itself, or the common entry of a `full((w,), v)` argument"""
+  if getattr(x, 'ndim', 0) == 0:
+    return x
+  return x.reshape(-1)[0]
+
+
+def resolve_shape(shape, x):
+  """literal dims and 'W' = `x.shape[-1:]` (the argument's last axis; nothing for a scalar argument)"""
+  out = ()
+  for d in shape:
+    out += tuple(np.shape(x)[-1:]) if d == 'W' else (d,)
+  return out
+
+
+def make_arg(a, w):
+  return a if w is None else full((w,), a)
+
+
+def put_leaves(st):
+  """the leaves of one (possibly dict-valued) put statement: [(rel, name, expr)]"""
+  return [(st.get('rel', []), st['n'], st['e'])] + [(r, n, e) for r, n, e in st.get('more', [])]
+
+
+def do_put(api, st, x, env):
+  """`put_variable(col, n, leaf)` or, with a relative path, ONE `put_variable(col, rel0, {... {n: leaf}})`"""
+  leaves = [(rel, n, ev(e, x, env)) for rel, n, e in put_leaves(st)]
+  col = st['c']
+  here = api.path()
+  if not leaves[0][0]:
+    rel, n, v = leaves[0]
+    api.put(col, n, full((), v))
+    Guard.wrote(col, here, n, v)
+    return
+  tree = {}
+  for rel, n, v in leaves:
+    d = tree
+    for k in rel[1:]:
+      d = d.setdefault(k, {})
+    d[n] = full((), v)
+  api.put(col, leaves[0][0][0], tree)
+  for rel, n, v in leaves:
+    Guard.wrote(col, tuple(here) + tuple(rel), n, v)
+
+
 def const_init(k):
   def init_fn(key, shape):
     if not is_tracer(key):
@@ -127,6 +193,12 @@ def const_init(k):
 # ------------------------------------------------------------------------------------------------
 # the interpreter: one body, one API adaptor
 # ------------------------------------------------------------------------------------------------
+
+
+def _init_var(c, path, n, shape, val):
+  v = full(shape, val)
+  Guard.wrote(c, path, n, total(v) if not is_tracer(val) else val)
+  return v
 
 
 class CoreApi:
@@ -144,7 +216,7 @@ class CoreApi:
     return self.scope.param(n, const_init(init), tuple(shape))
 
   def variable(self, c, n, shape, val):
-    return self.scope.variable(c, n, lambda: full(shape, val))
+    return self.scope.variable(c, n, lambda: _init_var(c, self.path(), n, shape, val))
 
   def get(self, c, n):
     return self.scope.get_variable(c, n)
@@ -160,10 +232,17 @@ class CoreApi:
 
     fn.__name__ = st['cls']
     fn.__qualname__ = st['cls']
-    return self.scope.child(fn, name=st['name'])
+    before = set(self.scope.reservations)
+    f = self.scope.child(fn, name=st['name'])
+    new = set(self.scope.reservations) - before
+    f.scope_name = next(iter(new)) if len(new) == 1 else st['name']
+    return f
 
   def call(self, k, a):
     return k(a)
+
+  def kid_name(self, k):
+    return k.scope_name
 
 
 class LinenApi:
@@ -182,7 +261,7 @@ class LinenApi:
     return self.m.param(n, const_init(init), tuple(shape))
 
   def variable(self, c, n, shape, val):
-    return self.m.variable(c, n, lambda: full(shape, val))
+    return self.m.variable(c, n, lambda: _init_var(c, self.path(), n, shape, val))
 
   def get(self, c, n):
     return self.m.get_variable(c, n)
@@ -203,10 +282,14 @@ class LinenApi:
   def call(self, k, a):
     return k(a)
 
+  def kid_name(self, k):
+    return k.name
 
-def run_body(api, body, x):
+
+def run_body(api, body, xin):
   """Executes the statements of one module body through `api`; returns the body's result."""
   env, kids, out = [], [], F32(0)
+  x = scalar_of(xin)
   for st in body:
     op = st['op']
     if op == 'bind':
@@ -214,28 +297,34 @@ def run_body(api, body, x):
     elif op == 'ret':
       out = ev(st['e'], x, env)
     elif op == 'param':
-      env.append(total(api.param(st['n'], st['shape'], st['init'])))
+      env.append(total(api.param(st['n'], resolve_shape(st['shape'], xin), st['init'])))
     elif op == 'variable':
       iv = ev(st['e'], x, env)
       v = api.variable(st['c'], st['n'], st['shape'], iv)
-      env.append(total(v.value))
+      t = total(v.value)
+      Guard.read(st['c'], api.path(), st['n'], t)
+      env.append(t)
     elif op == 'get':
-      env.append(total(api.get(st['c'], st['n'])))
+      t = total(api.get(st['c'], st['n']))
+      Guard.read(st['c'], api.path(), st['n'], t)
+      env.append(t)
     elif op == 'put':
-      api.put(st['c'], st['n'], full((), ev(st['e'], x, env)))
+      do_put(api, st, x, env)
     elif op == 'sow':
+      Guard.forget(st['c'], api.path(), st['n'])
       api.sow(st['c'], st['n'], full((), ev(st['e'], x, env)))
     elif op == 'perturb':
+      Guard.forget(st['c'], api.path(), st['n'])
       env.append(total(api.perturb(st['c'], st['n'], full((), ev(st['e'], x, env)))))
     elif op == 'child':
       kids.append(api.child(st))
     elif op == 'call':
       a = ev(st['e'], x, env)
-      env.append(api.call(kids[st['slot']], a))
+      env.append(api.call(kids[st['slot']], make_arg(a, st.get('w'))))
     else:
       raise ValueError(op)
   if Guard.calls is not None and not is_tracer(out) and not is_tracer(x):
-    Guard.calls.append((api.path(), x, out, body))
+    Guard.calls.append((api.path(), x, out, body, (None if np.ndim(xin) == 0 else int(np.shape(xin)[-1]))))
   return out
 
 
@@ -284,24 +373,27 @@ class Classes:
             setattr(self, f'p_{i}', self.param(d['n'], const_init(d['init']), tuple(d['shape'])))
           elif d['op'] == 'variable':
             iv = ev(d['e'], None, [])
-            setattr(self, f'v_{i}', self.variable(d['c'], d['n'], lambda d=d, iv=iv: full(d['shape'], iv)))
+            setattr(self, f'v_{i}', self.variable(d['c'], d['n'], lambda d=d, iv=iv, pth=tuple(self.path): _init_var(d['c'], pth, d['n'], d['shape'], iv)))
           else:
             cls = classes.setup_class(d)
             setattr(self, f'{prefix}{slot}', cls(name=d['name']) if d['name'] is not None else cls())
             slot += 1
 
-      def __call__(self, x):
+      def __call__(self, xin):
         env, kids, out = [], [], F32(0)
+        x = scalar_of(xin)
         slot = 0
+        api = LinenApi(self, classes)
         for i, d in enumerate(decls):
           if d['op'] == 'param':
             env.append(total(getattr(self, f'p_{i}')))
           elif d['op'] == 'variable':
-            env.append(total(getattr(self, f'v_{i}').value))
+            t = total(getattr(self, f'v_{i}').value)
+            Guard.read(d['c'], api.path(), d['n'], t)
+            env.append(t)
           else:
             kids.append(getattr(self, f'{prefix}{slot}'))
             slot += 1
-        api = LinenApi(self, classes)
         for st2 in actions:
           op = st2['op']
           if op == 'bind':
@@ -309,20 +401,24 @@ class Classes:
           elif op == 'ret':
             out = ev(st2['e'], x, env)
           elif op == 'get':
-            env.append(total(api.get(st2['c'], st2['n'])))
+            t = total(api.get(st2['c'], st2['n']))
+            Guard.read(st2['c'], api.path(), st2['n'], t)
+            env.append(t)
           elif op == 'put':
-            api.put(st2['c'], st2['n'], full((), ev(st2['e'], x, env)))
+            do_put(api, st2, x, env)
           elif op == 'sow':
+            Guard.forget(st2['c'], api.path(), st2['n'])
             api.sow(st2['c'], st2['n'], full((), ev(st2['e'], x, env)))
           elif op == 'perturb':
+            Guard.forget(st2['c'], api.path(), st2['n'])
             env.append(total(api.perturb(st2['c'], st2['n'], full((), ev(st2['e'], x, env)))))
           elif op == 'call':
             a = ev(st2['e'], x, env)
-            env.append(kids[st2['slot']](a))
+            env.append(kids[st2['slot']](make_arg(a, st2.get('w'))))
           else:
             raise ValueError(op)
         if Guard.calls is not None and not is_tracer(out) and not is_tracer(x):
-          Guard.calls.append((tuple(self.path), x, out, body))
+          Guard.calls.append((tuple(self.path), x, out, body, (None if np.ndim(xin) == 0 else int(np.shape(xin)[-1]))))
         return out
 
       self.cache[key] = (type(st['cls'], (nn.Module,), {'setup': setup, '__call__': __call__}), st)
@@ -367,6 +463,8 @@ def setup_eligible(body):
   if any(is_decl(st) for st in actions):
     return False
   for d in decls:
+    if d['op'] == 'param' and 'W' in d['shape']:
+      return False  # the argument is not available in setup()
     if d['op'] == 'variable' and (not expr_const(d['e']) or d['c'] == 'params'):
       return False
     if d['op'] == 'child' and not setup_eligible(d['body']):
@@ -394,6 +492,57 @@ def executed(body):
         yield from executed(kids[st['slot']]['body'])
     else:
       yield st
+
+
+def param_shapes_by_site(body, w=None, chain=()):
+  """{(construction-site chain, param statement): set of shapes requested}, following calls with their widths;
+  one site = one variable, so two shapes at one site must make init raise ScopeParamShapeError"""
+  out = {}
+  kids = []
+  for st in body:
+    if st['op'] == 'param':
+      shape = tuple(d2 for d in st['shape'] for d2 in (([w] if w is not None else []) if d == 'W' else [d]))
+      out.setdefault(chain + (id(st),), set()).add(shape)
+    elif st['op'] == 'child':
+      kids.append(st)
+    elif st['op'] == 'call' and st['slot'] < len(kids):
+      k = kids[st['slot']]
+      for site, shapes in param_shapes_by_site(k['body'], st.get('w'), chain + (id(k),)).items():
+        out.setdefault(site, set()).update(shapes)
+  return out
+
+
+def gen_width_prog(rng):
+  """A submodule whose parameter shapes follow the argument's last axis, called two or three times — with the
+  same width (plain sharing) or with different widths (the second use must raise, also during init)."""
+  inner_stmts = [{'op': 'param', 'n': 'scale', 'shape': rng.choice([['W'], ['W'], [2, 'W'], ['W', 1]]), 'init': rng.randrange(1, 4)}]
+  if rng.random() < 0.5:
+    inner_stmts.append({'op': 'param', 'n': 'w1', 'shape': rng.choice([[], [2]]), 'init': 1})
+  if rng.random() < 0.4:
+    inner_stmts.append({'op': 'variable', 'c': 'stats', 'n': 'v0', 'shape': [], 'e': 0})
+  inner_stmts.append({'op': 'ret', 'e': {'+': [{'*': ['x', {'l': 0}]}, {'l': len(inner_stmts) - 1}]}})
+  name = rng.choice([None, None, 'c0', 'foo'])
+  w1 = rng.choice([1, 2, 3, 4])
+  r = rng.random()
+  ws = [w1, w1] if r < 0.4 else ([w1, rng.choice([w for w in (1, 2, 3, 4) if w != w1])] if r < 0.85 else [w1, None])
+  if rng.random() < 0.3:
+    ws.append(rng.choice(ws))
+  body = [{'op': 'child', 'cls': rng.choice(CLS), 'name': name, 'body': inner_stmts}]
+  nenv = 0
+  if rng.random() < 0.4:
+    body.insert(0, {'op': 'param', 'n': 'w0', 'shape': [2], 'init': 1})
+    nenv = 1
+  for w in ws:
+    c = {'op': 'call', 'slot': 0, 'e': 'x' if nenv == 0 or rng.random() < 0.5 else {'l': nenv - 1}}
+    if w is not None:
+      c['w'] = w
+    body.append(c)
+    nenv += 1
+  body.append({'op': 'ret', 'e': {'+': [{'l': nenv - 1}, {'l': nenv - 2}]}})
+  if rng.random() < 0.35:
+    # one level down
+    body = [{'op': 'child', 'cls': 'C', 'name': None, 'body': body}, {'op': 'call', 'slot': 0, 'e': 'x'}, {'op': 'ret', 'e': {'l': 0}}]
+  return body
 
 
 def erase_observers(body, perturb_too=True):
@@ -829,9 +978,21 @@ def gen_expr(rng, nenv, depth=2, const_only=False):
   return {k: [gen_expr(rng, nenv, depth - 1, const_only), gen_expr(rng, nenv, depth - 1, const_only)]}
 
 
-def gen_body(rng, depth, nstmts, decl_first=False, linen=True, explicit_p=0.4):
+def state_paths(body, depth=2):
+  """(relative path, collection, name) of the variables a body declares, itself and through explicitly named children"""
+  out = []
+  for st in body:
+    if st['op'] == 'variable':
+      out.append(([], st['c'], st['n']))
+    elif st['op'] == 'child' and st['name'] is not None and depth > 0:
+      out += [([st['name']] + r, c, n) for r, c, n in state_paths(st['body'], depth - 1)]
+  return out
+
+
+def gen_body(rng, depth, nstmts, decl_first=False, linen=True, explicit_p=0.4, wdims=False):
   """One module body. Valid stream: no name is declared twice in a way that clashes."""
   body = []
+  kid_stmts = []
   nenv = 0
   kids = 0
   taken = {}  # name -> set of cols (None for a child)
@@ -855,7 +1016,10 @@ def gen_body(rng, depth, nstmts, decl_first=False, linen=True, explicit_p=0.4):
       n = rng.choice(PNAMES)
       if free_for(n, 'params'):
         take(n, 'params')
-        body.append({'op': 'param', 'n': n, 'shape': rng.choice(SHAPES), 'init': rng.randrange(-2, 4)})
+        shape = list(rng.choice(SHAPES))
+        if wdims and rng.random() < 0.45:
+          shape = rng.choice([['W'], shape + ['W'], ['W'] + shape[:1]])
+        body.append({'op': 'param', 'n': n, 'shape': shape, 'init': rng.randrange(-2, 4)})
         nenv += 1
     elif r < 0.7 or depth == 0:
       c, n = rng.choice(VCOLS), rng.choice(VNAMES)
@@ -876,8 +1040,10 @@ def gen_body(rng, depth, nstmts, decl_first=False, linen=True, explicit_p=0.4):
           take(name, None)
         else:
           take(f'{cls}_auto{kids}', None)
-        sub = gen_body(rng, depth - 1, rng.randrange(2, max(3, nstmts - 1)), decl_first, linen, explicit_p)
+        sub = gen_body(rng, depth - 1, rng.randrange(2, max(3, nstmts - 1)), decl_first, linen, explicit_p,
+                       wdims=not decl_first and rng.random() < 0.5)
         body.append({'op': 'child', 'cls': cls, 'name': name, 'body': sub})
+        kid_stmts.append(body[-1])
         kids += 1
 
   def action():
@@ -907,8 +1073,23 @@ def gen_body(rng, depth, nstmts, decl_first=False, linen=True, explicit_p=0.4):
         take(n, c)
         body.append({'op': 'perturb', 'c': c, 'n': n, 'e': gen_expr(rng, nenv)})
         nenv += 1
+    elif kids and r < 0.8 and any(k['name'] is not None for k in kid_stmts):
+      # a dict-valued write over (part of) the subtree of an explicitly named child
+      k = rng.choice([k for k in kid_stmts if k['name'] is not None])
+      sp = state_paths(k['body'])
+      if sp:
+        rel0, c, n0 = rng.choice(sp)
+        same = [(r_, n_) for r_, c_, n_ in sp if c_ == c and (r_, n_) != (rel0, n0)]
+        st = {'op': 'put', 'c': c, 'rel': [k['name']] + rel0, 'n': n0, 'e': gen_expr(rng, nenv, 1)}
+        if same and rng.random() < 0.5:
+          r_, n_ = rng.choice(same)
+          st['more'] = [[[k['name']] + r_, n_, gen_expr(rng, nenv, 1)]]
+        body.append(st)
     elif kids:
-      body.append({'op': 'call', 'slot': rng.randrange(kids), 'e': gen_expr(rng, nenv, 1)})
+      call = {'op': 'call', 'slot': rng.randrange(kids), 'e': gen_expr(rng, nenv, 1)}
+      if rng.random() < 0.3:
+        call['w'] = rng.choice([1, 2, 2, 3, 4])
+      body.append(call)
       nenv += 1
 
   if decl_first:
@@ -928,6 +1109,15 @@ def gen_body(rng, depth, nstmts, decl_first=False, linen=True, explicit_p=0.4):
     if k not in called and rng.random() < 0.85:
       body.append({'op': 'call', 'slot': k, 'e': gen_expr(rng, nenv, 1)})
       nenv += 1
+  # calls of one child mostly agree on the argument width (a width-dependent parameter is shared between them)
+  for k in range(kids):
+    cs = [s_ for s_ in body if s_['op'] == 'call' and s_['slot'] == k]
+    if len(cs) > 1 and rng.random() < 0.7:
+      for c_ in cs[1:]:
+        if 'w' in cs[0]:
+          c_['w'] = cs[0]['w']
+        else:
+          c_.pop('w', None)
   body.append({'op': 'ret', 'e': gen_expr(rng, nenv)})
   return body
 
@@ -959,6 +1149,52 @@ def strip_to_decls(body):
     else:
       out.append(st)
   return out
+
+
+def gen_restore_prog(rng):
+  """A chain of explicitly named submodules (2-3 deep) ending in a counter; some ancestor first calls the chain
+  (every nested scope now refers to its part of the state tree), then writes a dict-valued variable over the
+  subtree of its child — two or more levels above the counter —, then calls the chain again.  Declaration-first,
+  so it also renders in the setup style; children are re-called."""
+  col = rng.choice(['stats', 'cache', 'stats'])
+  names = rng.sample(['c0', 'g0', 'h0', 'foo', 'c1'], rng.choice([2, 2, 3]))
+  writer = rng.randrange(-1, len(names) - 2)  # -1 = the top-level module; the write lands >= 2 levels above the counter
+  extra = rng.random() < 0.5  # a second variable next to the counter
+
+  def leaf():
+    b = [{'op': 'variable', 'c': col, 'n': 'cnt', 'shape': [], 'e': rng.randrange(0, 3)}]
+    if extra:
+      b.append({'op': 'variable', 'c': col, 'n': 'aux', 'shape': rng.choice([[], [2]]), 'e': 1})
+    b.append({'op': 'put', 'c': col, 'n': 'cnt', 'e': {'+': [{'l': 0}, 1]}})
+    b.append({'op': 'get', 'c': col, 'n': 'cnt'})
+    b.append({'op': 'ret', 'e': {'+': [{'l': len(b) - 2}, 'x']} if rng.random() < 0.5 else {'l': len(b) - 2}})
+    return b
+
+  def level(i):
+    # body of the module that constructs names[i]
+    inner = leaf() if i == len(names) - 1 else level(i + 1)
+    b = [{'op': 'child', 'cls': rng.choice(CLS), 'name': names[i], 'body': inner}]
+    if i >= 0 and rng.random() < 0.4:
+      b.insert(0, {'op': 'param', 'n': 'w0', 'shape': [2], 'init': 1})
+    nenv = len(b) - 1
+    b.append({'op': 'call', 'slot': 0, 'e': 'x'})
+    nenv += 1
+    if writer == i - 1:
+      rel = names[i:]
+      st = {'op': 'put', 'c': col, 'rel': rel, 'n': 'cnt', 'e': rng.choice([10, 7, {'+': ['x', 20]}])}
+      if extra and rng.random() < 0.6:
+        st['more'] = [[rel, 'aux', rng.randrange(2, 6)]]
+      b.append(st)
+      for _ in range(rng.choice([1, 1, 2])):
+        b.append({'op': 'call', 'slot': 0, 'e': {'l': nenv - 1}})
+        nenv += 1
+    elif rng.random() < 0.3:
+      b.append({'op': 'call', 'slot': 0, 'e': {'l': nenv - 1}})
+      nenv += 1
+    b.append({'op': 'ret', 'e': {'l': nenv - 1}})
+    return b
+
+  return level(0)
 
 
 CLASH_KINDS = [
@@ -1063,7 +1299,7 @@ def run_scenario(R, sc):
   obs = {}
   Guard.reset()
   mut = filter_py(sc['mutable'], sc.get('_rng'))
-  x = np.asarray(sc['x'], F32)
+  x = np.asarray(sc['x'], F32) if sc.get('xw') is None else np.full((sc['xw'],), sc['x'], F32)
   key = the_key()
   rngs = {'params': key} if sc['rngs'] else None
   if sc['kind'] == 'init' and rngs is None:
@@ -1078,15 +1314,20 @@ def run_scenario(R, sc):
   s_mut = repr(mut)
   results = []
   peaks = []
+  lost = []
   for _ in range(sc.get('ncalls', 1)):
     Guard.peak = 0.0
     Guard.inits = 0
+    Guard.shadow, Guard.stale = {}, []
     if sc['kind'] == 'init':
       r = R.init(rngs, x, mut, capture=sc.get('capture', False))
     else:
       r = R.apply(V, x, rngs, mut, capture=sc.get('capture', False))
     results.append((r, Guard.inits))
     peaks.append(Guard.peak)
+    lost += written_values_lost(r, Guard.shadow, Guard.stale)
+    Guard.shadow, Guard.stale = None, None
+  obs['lost_writes'] = lost
   obs['peak'] = max(peaks)
   obs['inits'] = results[0][1]
   obs['raw'] = results[0][0]
@@ -1125,10 +1366,33 @@ def run_scenario(R, sc):
   return obs
 
 
+def written_values_lost(r, shadow, stale):
+  """"Their new values are returned": every value the program itself wrote (put_variable — leaf or dict-valued —
+  or a variable initialiser) and did not overwrite later must be what a later read in the same call saw, and what
+  the returned collection holds at that path.  Independent of the model: a shadow dict kept by the interpreter."""
+  out = [f'read at {p} in {c!r} returned {got}, the program last wrote {want}' for p, c, want, got in stale]
+  if r[0] == 'ok' and r[1][1] is not None:
+    ret = r[1][1]
+    for (col, path, name), want in shadow.items():
+      if col not in ret:
+        continue  # not selected by `mutable`: such a write raised, nothing was recorded after it
+      node = ret[col]
+      try:
+        for k in path:
+          node = node[k]
+        got = float(total(node[name]))
+      except (KeyError, TypeError, IndexError):
+        out.append(f'{col!r}{list(path) + [name]} was written ({want}) but is missing from the returned collection')
+        continue
+      if got != want:
+        out.append(f'{col!r}{list(path) + [name]}: returned {got}, the program last wrote {want}')
+  return out
+
+
 def model_request(sc, conv):
   cfg = cfg_json(sc['style'], conv, capture=sc.get('capture', False))
   V = sc['vars'] if sc['kind'] == 'apply' else {'cols': [], 'vars': []}
-  return ('apply', [cfg, sc['prog'], sc['mutable'], V, ['params'] if sc['rngs'] else [], sc['x']])
+  return ('apply', [cfg, sc['prog'], sc['mutable'], V, ['params'] if sc['rngs'] else [], sc['x'], sc.get('xw')])
 
 
 def public(sc):
